@@ -29,7 +29,7 @@ def run(ctx):
         if not m: ctx.broken.append('correspondence entry-reader: modeld entryread failed: ' + out[-300:])
         else:
             ctx.cov['correspondence']['entry-reader'] = dict(model='entryread', cases=int(m.group(1)), agree_ok=int(m.group(2)), agree_fail=int(m.group(3)), model_rejects_real_accepts=int(m.group(4)), mismatches=int(m.group(5)))
-            if int(m.group(5)): ctx.broken.append('correspondence entry-reader: model accepts/returns something the real zip reader does not on %s archives: %s' % (m.group(5), out[:400].replace('\n', ' ')))
+            if int(m.group(5)): ctx.broken.append('correspondence entry-reader: model accepts/returns something the real zip reader does not on %s archives: %s' % (m.group(5), ' '.join(l for l in out.splitlines() if l.startswith('MISMATCH') or l.startswith('  real') or l.startswith('  model'))[:500]))
     else: ctx.broken.append('correspondence entry: modeld missing')
     os.remove(f'{w}/faults.txt')
     ctx.evaluations += s['fault_cases'] + s['roundtrip_members'] + s['file_roundtrips']
